@@ -133,6 +133,19 @@ def registry():
     return {c.name: c for c in cfgs}
 
 
+# option arrays a caller defines once and hands to every filter it builds (markers "shared:<name>" in a kwargs table resolve to these very objects)
+_PRISTINE = {"zeros3": np.zeros(3), "eye4": np.identity(4), "noises": np.array([0.3 ** 2, 0.5 ** 2, 0.8 ** 2]), "ones2": np.ones(2)}
+POOL = {k: v.copy() for k, v in _PRISTINE.items()}
+
+
+def pool_changed():
+    """names of pooled option arrays that no longer hold what the caller put in them; restores them"""
+    bad = [k for k in POOL if not np.array_equal(POOL[k], _PRISTINE[k])]
+    for k in POOL:
+        POOL[k][...] = _PRISTINE[k]
+    return bad
+
+
 def resolve_kw(cfg, dip_deg, extra=None):
     kw = {}
     for k, v in cfg.defaults.items():
@@ -144,6 +157,8 @@ def resolve_kw(cfg, dip_deg, extra=None):
             kw[k] = 48.3 * np.array([np.cos(d), 0.0, np.sin(d)])
         elif isinstance(v, str) and v == "ref_vector_enu":
             kw[k] = 48.3 * np.array([0.0, np.cos(d), -np.sin(d)])
+        elif isinstance(v, str) and v.startswith("shared:"):
+            kw[k] = POOL[v[7:]]
     return kw
 
 
